@@ -235,8 +235,9 @@ def run(ctx):
             elif v["status"] == "twin_failed":
                 if progs.is_documented_ordering_limitation(v["twin"]):
                     ctx.bump("excluded_documented_limitation_hit")
-                else:
-                    raise RuntimeError("C16 twin failed: " + v["twin"].first_error() + "\n" + v["twin_src"][-500:])
+                elif out[k] is None:
+                    out[k] = {"what": "C16: the positive twin (C * 1) of a negative probe does not compile: %s" % v["twin"].first_error(),
+                              "replay": {"mode": "syntax", "expect": "ok", "src": v["twin_src"], "cfg": list(v["cfg"])}}
         return out
 
     grid = []
